@@ -66,14 +66,25 @@ def programs(n_results, allow_restart=True):
 class Runner:
     """Executes one schedule over fresh targets; records, per evaluation, what it yielded and how it ended."""
 
-    def __init__(self, targets, render):
+    def __init__(self, targets, render, effects=None):
+        """effects: optional list that the targets append to as a side effect of producing results (e.g. a log of the
+        objects a rule query constructs); what each step adds is attributed to the evaluation that took the step"""
         self.targets = targets
         self.render = render
+        self.effects = effects
         self.its = [None] * len(targets)
         self.evals = []  # list of dicts: thread, results, end
         self.current = [None] * len(targets)
 
     def step(self, t, action):
+        before = len(self.effects) if self.effects is not None else 0
+        try:
+            self._step(t, action)
+        finally:
+            if self.effects is not None and self.current[t] is not None:
+                self.current[t].setdefault("effects", []).extend(self.effects[before:])
+
+    def _step(self, t, action):
         a = action[0]
         if a == "start":
             if self.current[t] is not None and self.current[t]["end"] is None:
